@@ -43,6 +43,12 @@ FIRST_MISSED = {
     "C04-9": "`second_pass_random`: the extreme load level reached several times with both signs, the samples differing by 1-3 ulps (0.1*3*1000 vs 300.0)",
     "C10-8": "`batch_independence`/`batch_sequence`: low-cycle class (12-40 large cycles at 2-4 R_m) in which the highest loaded point reaches damage sum 1 within the two recorded passes",
     "C10-9": "the per-node-maxima request passed as numpy bool or integer 1 as well as the literal True",
+    "C13-7": "falsy string level names (name pool with the empty string) in `align_random` / `align_exhaustive`",
+    "C13-8": "one held `Broadcaster` instance per object: broadcast, overwrite a value of the signal in place, broadcast again (`scalar_array`, `repeat_history`)",
+    "C14-7": "collectives with repeated index labels (`dup_plain`, `dup_named`, `dup_multi`), both descriptions, with and without cycles; the held collective must keep exactly the rows it was made from",
+    "C14-9": "int64-count histograms in `rebin_conserves`; the int64 output of `range_histogram` fed straight into `rebin_histogram`",
+    "C18-7": "new sub-check `closed_int_cycles` (int64 / Int64 / int32 / uint32 cycle counts incl. small ones == float64 storage; cycles x 2^e)",
+    "C18-8": "new sub-check `history_transition` (one FatigueData object: analyse, set the transition, analyse again == fresh object)",
     "C02-1": "signal kind `decimal` (values single precision cannot represent, with exact ties)",
     "C02-3": "operator `near_plateau` (neighbour 1 ulp / 1e-12 / 1e-9 away: no plateau)",
     "C03-3": "new sub-check `nan_chunked` (NaN clause combined with chunked feeding)",
@@ -63,6 +69,12 @@ FIRST_MISSED = {
     "C13-2": "same name set in different level order with positionally coinciding tuples in `woehler_downstream`",
     "C18-1": "duplicated / non-default row labels in `zones` and the permutation relation",
     "C18-2": "call-history sub-check: series B analysed after a one-mixed-level series A == B in a fresh state",
+}
+
+
+SEED_DEPENDENT = {
+    "C20-2": "a node set and an element set with the same name on one geometry, both filtered through one held importer in both orders, is now constructed on purpose (about 30 cases per run instead of 3-7); detected at seeds 1-3",
+    "C14-5": "nested source classes (coarse classes lying over several fine ones) drawn in half of the 1-D cases after added generator classes had shifted the random stream; detected at seeds 1-3",
 }
 
 
@@ -88,6 +100,8 @@ def seeded_table():
         check = r.get("check", "not run")
         if sid in FIRST_MISSED:
             check += " (missed at first; strengthened: %s)" % FIRST_MISSED[sid]
+        if sid in SEED_DEPENDENT:
+            check += " (detection was seed dependent; strengthened: %s)" % SEED_DEPENDENT[sid]
         if m.get("neutralised_by"):
             check = "DETECTED before the F01b repair; **neutralised by it**: on the current tree the demonstration passes with the change (no longer property-breaking)"
         if m.get("outside_properties"):
